@@ -251,12 +251,29 @@ Definition text_lines (content : text) : list text :=
 Definition take_ident (t : text) : text :=
   (fix go (t : text) : text := match t with c :: r => if ident_char c then c :: go r else [] | [] => [] end) t.
 
-Fixpoint find_def_up (up : list text) (i : N) (n : nat) : option (N * text) :=
+(** the text behind the [def] keyword (after an optional [async]) of a function header line.
+    Since fix aeb5786 any white space may separate the keywords and the name:
+    [after_kw("def", after_kw("async", line).unwrap_or(line))] with
+    [after_kw(kw, s) = s.strip_prefix(kw).filter(starts with white space).map(trim_start)] *)
+Definition s_kw_def : text := [100; 101; 102].
+Definition s_kw_async : text := [97; 115; 121; 110; 99].
+Definition after_kw (kw t : text) : option text :=
+  match strip_prefix kw t with
+  | Some (c :: r) => if is_ws c then Some (trim_start (c :: r)) else None
+  | _ => None
+  end.
+Definition after_def_keyword (t : text) : option text :=
+  after_kw s_kw_def (match after_kw s_kw_async t with Some r => r | None => t end).
+(** before that fix: exactly ["async def "] or ["def "], and the name expected right behind *)
+Definition after_def_keyword_old (t : text) : option text :=
+  match strip_prefix s_async_def t with Some r => Some r | None => strip_prefix s_def t end.
+
+Fixpoint find_def_up (kwr : text -> option text) (up : list text) (i : N) (n : nat) : option (N * text) :=
   (* scanning upward from 0-based index [i]: the first line whose trimmed text starts a def *)
   match n, up with
   | S n', l :: r =>
       let t := trim l in
-      if tprefix s_def t || tprefix s_async_def t then Some (i, t) else find_def_up r (i - 1) n'
+      match kwr t with Some _ => Some (i, t) | None => find_def_up kwr r (i - 1) n' end
   | _, _ => None
   end.
 
@@ -291,7 +308,7 @@ Definition declared_from_text (ls : list text) : list string :=
 
 (** [fixed] = since fixes aedb37b / ffc6949; [parsed_ok]: the document parses, so the signature
     heuristics are skipped (since fix aedb37b) *)
-Definition text_ctx_with (fixed parsed_ok : bool) (content : text) (target_line : N) : option ctx :=
+Definition text_ctx_gen (kwr : text -> option text) (fixed parsed_ok : bool) (content : text) (target_line : N) : option ctx :=
   let ls := text_lines content in
   if (target_line =? 0) || (len ls <? target_line) then None else
   let cursor := target_line - 1 in
@@ -300,13 +317,10 @@ Definition text_ctx_with (fixed parsed_ok : bool) (content : text) (target_line 
   | Some res => res
   | None =>
       if fixed && parsed_ok then None else
-      match find_def_up up cursor 51 with
+      match find_def_up kwr up cursor 51 with
       | None => None
       | Some (di, dl) =>
-          let remaining := match strip_prefix s_async_def dl with
-                           | Some r => r
-                           | None => match strip_prefix s_def dl with Some r => r | None => [] end
-                           end in
+          let remaining := match kwr dl with Some r => r | None => [] end in
           let fname := take_ident remaining in
           match fname with
           | [] => None
@@ -325,6 +339,9 @@ Definition text_ctx_with (fixed parsed_ok : bool) (content : text) (target_line 
           end
       end
   end.
+
+Definition text_ctx_with := text_ctx_gen after_def_keyword.
+Definition text_ctx_with_old_kw := text_ctx_gen after_def_keyword_old.
 
 (** ** [get_completion_context]: [m] = the layout when the text parses *)
 Definition completion_ctx_with (fixed : bool) (content : text) (m : option (list cstmt)) (line0 : N) : option ctx :=
